@@ -1082,6 +1082,90 @@ def run_B5(unit, R, tier):
     R.use("B5")
 
 
+# ------------------------------------------------------------------ B6: the lifetime of a cookie the SERVER issued
+
+DAY = 24 * 3600
+AGES = [0, 3600, 7 * DAY - 60, 7 * DAY + 60, 8 * DAY, 14 * DAY - 60, 14 * DAY + 60, 35 * DAY]
+WEEK = 7 * DAY            # "valid unexpired": the code documents PIN_TIME = 60 * 60 * 24 * 7
+
+
+def issue_cookie(d, how):
+    """Let the server issue the cookie: a real successful pinauth; 'renewed' = a second pinauth that is accepted
+    because of the first cookie (the server then issues a fresh one)."""
+    path, query = build_query("pinauth", "right", "absent", pin="right")
+    got = d.request(path, query, "localhost", "absent")
+    if "exc" in got or got["code"] != 200:
+        return None, got
+    ck = [v.split(";")[0] for k, v in got["headers"] if k.lower() == "set-cookie" and "|" in v]
+    if not ck:
+        return None, got
+    if how == "renewed":
+        FakeTime.now += 100
+        path, query = build_query("pinauth", "right", "absent", pin="wrong")
+        got = d.request(path, query, "localhost", "raw:" + ck[0])
+        ck2 = [v.split(";")[0] for k, v in got.get("headers", []) if k.lower() == "set-cookie" and "|" in v]
+        if not ck2:
+            return None, got
+        return ck2[0], got
+    return ck[0], got
+
+
+def run_B6(unit, R, tier):
+    if dbg.PIN_TIME != WEEK:
+        R.use("B6:PIN_TIME-changed")      # the documented week is what the oracle uses, whatever the constant says
+    for evalex in (True,):
+        for how in ("fresh", "renewed"):
+            for age in AGES:
+                for use in ("eval", "eval-console-frame", "pinauth-wrong-pin", "console"):
+                    d = Dbg(evalex=evalex, pin_on=True)
+                    d.reset()
+                    cookie, got = issue_cookie(d, how)
+                    rec = {"kind": "issued", "how": how, "age": age, "use": use}
+                    R.ev()
+                    R.count("executions", 2)
+                    if cookie is None:
+                        rec["outcome"] = ("no-cookie-issued", got.get("code"), got.get("exc"))
+                        R.violation("issued:right-pin-not-accepted", rec)
+                        continue
+                    issued_at = FakeTime.now
+                    FakeTime.now = issued_at + age
+                    d.app._failed_pin_auth.value = 0
+                    expired = age > WEEK
+                    if use.startswith("eval"):
+                        path, query = build_query("eval", "right", "known" if use == "eval" else "console")
+                        got = d.request(path, query, "localhost", "raw:" + cookie)
+                        opened = bool(d.spy.calls or d.cspy.calls)
+                    elif use == "pinauth-wrong-pin":
+                        path, query = build_query("pinauth", "right", "absent", pin="wrong")
+                        got = d.request(path, query, "localhost", "raw:" + cookie)
+                        try:
+                            opened = bool(json.loads(got.get("body", b"{}")).get("auth"))
+                        except ValueError:
+                            opened = False
+                    else:
+                        got = d.request("/console", "", "localhost", "raw:" + cookie)
+                        opened = b"EVALEX_TRUSTED = true" in got.get("body", b"")
+                    rec["outcome"] = ("exc", got["exc"]) if "exc" in got else ("ok", got["code"], opened)
+                    R.outcome(("B6", use, expired, opened))
+                    R.use("B6:age:%d" % age, "B6:use:" + use, "B6:" + how)
+                    if "exc" in got:
+                        R.violation("issued:exception:" + got["exc"], rec)
+                    elif opened and expired:
+                        # the console page only *reports* trust to the browser; evaluation and pinauth act on it
+                        if use == "console":
+                            R.use("B6:console-page-says-trusted-after-expiry")     # noted, not demanded
+                        else:
+                            R.violation(f"issued:{use}-honoured-after-a-week", rec)
+                    elif opened:
+                        R.use("B6:honoured-while-fresh:" + use)
+                    elif not expired:
+                        R.use("B6:refused-while-fresh:" + use)
+                    else:
+                        R.use("B6:refused-after-expiry:" + use)
+                    R.nontrivial(("B6", how, age, use))
+    R.use("B6")
+
+
 # ================================================================== space C: the PIN attempt machine
 
 ATTEMPTS = [(c, p) for c in ("absent", "valid", "expired", "wrong-hash", "malformed") for p in ("right", "wrong")] \
@@ -1301,7 +1385,7 @@ def units(tier):
             u += [("B", evalex, pin_on, i, 12) for i in range(12)]
             u += [("B5", evalex, pin_on, ci) for ci in range(len(REAL_CONFIGS))]
     u += [("A", "r2", i, 16) for i in range(16)]
-    u += [("B2", i, 48) for i in range(48)] + [("B3",)] + [("B4", i, 12) for i in range(12)]
+    u += [("B2", i, 48) for i in range(48)] + [("B3",), ("B6",)] + [("B4", i, 12) for i in range(12)]
     u += [("B4", i, 12, ev, po) for i in range(12) for ev, po in ((True, False), (False, True), (False, False))]
     if T:
         u += [("Cseq", "full", 5, i, 32) for i in range(32)]
@@ -1326,6 +1410,8 @@ def run_unit(unit, R, tier):
         run_B4(unit, R, tier)
     elif k == "B5":
         run_B5(unit, R, tier)
+    elif k == "B6":
+        run_B6(unit, R, tier)
     elif k == "Cgraph":
         run_C_graph(R, tier)
     elif k == "Clong":
@@ -1347,6 +1433,9 @@ def finalize(R, tier):
     need |= {"B:blocked-by:" + g for g in ("evalex", "host", "secret", "pin", "frame")}
     need |= {"A:api:" + a for a in APIS2} | {"A:value-checked", "A:default-port-stripped", "A:trusted-as-str",
                                               "A:unvalidated:rej", "A:unvalidated:acc"}
+    need |= {"B6", "B6:fresh", "B6:renewed", "B6:honoured-while-fresh:eval", "B6:honoured-while-fresh:eval-console-frame",
+             "B6:honoured-while-fresh:pinauth-wrong-pin", "B6:refused-after-expiry:eval",
+             "B6:refused-after-expiry:pinauth-wrong-pin"} | {"B6:age:%d" % a for a in AGES}
     need |= {"B2", "B4", "B4:spied", "B5", "B5:evaluated:traceback", "B5:evaluated:console", "B3:pin-off", "B3:pin-on",
              "B3:accepted:digits", "B3:accepted:as-displayed", "B3:accepted:blanks-around", "B3:refused:wrong",
              "B3:refused:one-short", "B3:refused:one-more", "B3:refused:empty", "B3:issued-cookie-opens-eval",
@@ -1402,6 +1491,18 @@ def replay(rec):
                             f"gates: {rec['gates']}\nviolations now: {sigs}\n"
                             f"recorded outcome (status, spied, answered, counter, cookie issued, pin logged, inner hits): "
                             f"{rec.get('outcome')}")
+    if k == "issued":
+        R = core.Recorder()
+        saved = AGES[:]
+        try:
+            AGES[:] = [rec["age"]]
+            run_B6(("B6",), R, "quick")
+        finally:
+            AGES[:] = saved
+        sigs = sorted(sg for (_c, sg) in R.viol if sg.endswith(f"{rec['use']}-honoured-after-a-week") or "exception" in sg)
+        return bool(sigs), (f"right PIN -> the server issues the PIN cookie ({rec['how']}); clock advanced by {rec['age']} s "
+                            f"({rec['age'] / DAY:.2f} days; a week is {WEEK} s); the cookie is replayed on {rec['use']}\n"
+                            f"recorded outcome: {rec.get('outcome')}\nviolations now: {sigs}")
     if k == "pin":
         out, demand, cnt = run_history(rec["history"], rec["attempt"])
         R = core.Recorder()
